@@ -640,6 +640,254 @@ have [n1 n2] := bisect_ok wx1 wy1 B.
 by split; [apply: Keeps_trans kx _ | apply: Keeps_trans ky _]; exact: Narrows_Keeps.
 Qed.
 
+(* ---------------------------------------------------------------- comparison of two numbers: the answer *)
+Definition sep x (y : anum) : Prop := dyR (ab x) <= dyR (aa y) \/ dyR (ab y) <= dyR (aa x).
+
+Lemma den_bounds x : WF x ->
+  (af x = None /\ dyR (aa x) = den x /\ dyR (ab x) = den x) \/
+  (af x <> None /\ dyR (aa x) < den x < dyR (ab x)).
+Proof.
+move=> wf; case E: (af x) => [l|]; first by right; split=> //; exact: WF_den_in wf E.
+by left; move: wf; rewrite /WF /den E => -[<- _ _].
+Qed.
+
+Lemma dyq_cmpE (d e : dyq) :
+  [/\ (dyq_cmp d e =? 0)%ZZ = (dyR d == dyR e), ZR (dyq_cmp d e) = sgr (dyR d - dyR e)
+    & (dyq_cmp d e =? 0)%ZZ = false -> ZR (dyq_cmp d e) = sgr (dyR d - dyR e)].
+Proof. by split; rewrite ?dyq_cmp_sgr // -ZR_eq0 dyq_cmp_sgr sgr_eq0 subr_eq0. Qed.
+
+Lemma sgr_lt (u v : R) : u < v -> sgr (u - v) = -1.
+Proof. by move=> h; rewrite ltr0_sg // subr_lt0. Qed.
+Lemma sgr_gt (u v : R) : v < u -> sgr (u - v) = 1.
+Proof. by move=> h; rewrite gtr0_sg // subr_gt0. Qed.
+
+Lemma cmp_ends_ok x (y : anum) : WF x -> WF y -> sep x y -> ZR (an_cmp_ends x y) = sgr (den x - den y).
+Proof.
+move=> wfx wfy sp; rewrite /an_cmp_ends !is_pointE.
+have [e0 ec _] := dyq_cmpE (aa x) (aa y).
+have [[ex [ax bx]]|[nx /andP[ax bx]]] := den_bounds wfx; have [[ey [ay by_]]|[ny /andP[ay by_]]] := den_bounds wfy.
+- (* both points *)
+  by rewrite ex ey /= -ax -ay; case: ifP.
+- (* x point, y interval *)
+  rewrite ex /= (negbTE (introN eqP ny)) /=.
+  case: sp => [le|le].
+    rewrite bx in le; case: Z.eqb_spec => [_|ne]; first by rewrite (ZR_opp 1) ZR_1 sgr_lt //; exact: le_lt_trans le ay.
+    rewrite ec ax; move: e0; rewrite (introF (Z.eqb_spec _ _) ne) ax => /esym/negbT ne'.
+    have lt : den x < dyR (aa y) by rewrite lt_neqAle ne'.
+    by rewrite !sgr_lt //; exact: lt_trans lt ay.
+  rewrite ax in le; have lt : dyR (aa y) < den x by apply: lt_le_trans le; exact: lt_trans ay by_.
+  have -> : (dyq_cmp (aa x) (aa y) =? 0)%ZZ = false by rewrite e0 ax gt_eqF.
+  by rewrite ec ax !sgr_gt //; exact: lt_le_trans by_ le.
+- (* x interval, y point *)
+  rewrite ey /= (negbTE (introN eqP nx)) /=.
+  case: sp => [le|le].
+    rewrite ay in le; have lt : dyR (aa x) < den y by apply: lt_le_trans le; exact: lt_trans ax bx.
+    have -> : (dyq_cmp (aa x) (aa y) =? 0)%ZZ = false by rewrite e0 ay lt_eqF.
+    by rewrite ec ay !sgr_lt //; exact: lt_le_trans bx le.
+  rewrite by_ in le; case: Z.eqb_spec => [_|ne]; first by rewrite ZR_1 sgr_gt //; exact: le_lt_trans le ax.
+  rewrite ec ay; move: e0; rewrite (introF (Z.eqb_spec _ _) ne) ay => /esym/negbT ne'.
+  have lt : den y < dyR (aa x) by rewrite lt_neqAle eq_sym ne'.
+  by rewrite !sgr_gt //; exact: lt_trans lt ax.
+- (* both intervals *)
+  rewrite (negbTE (introN eqP nx)) (negbTE (introN eqP ny)) /=.
+  have -> : (if (dyq_cmp (aa x) (aa y) =? 0)%ZZ then dyq_cmp (aa x) (aa y) else dyq_cmp (aa x) (aa y)) = dyq_cmp (aa x) (aa y) by case: ifP.
+  rewrite ec; case: sp => [le|le].
+    have h1 : dyR (aa x) < dyR (aa y) by apply: lt_le_trans le; exact: lt_trans ax bx.
+    have h2 : den x < den y by apply: lt_trans bx _; exact: le_lt_trans le ay.
+    by rewrite !sgr_lt.
+  have h1 : dyR (aa y) < dyR (aa x) by apply: lt_le_trans le; exact: lt_trans ay by_.
+  have h2 : den y < den x by apply: lt_trans by_ _; exact: le_lt_trans le ax.
+  by rewrite !sgr_gt.
+Qed.
+
+Lemma narrow_shape x l d :
+  [\/ (an_narrow x l d).1 = an_point d, (an_narrow x l d).1 = an_set_a x d | (an_narrow x l d).1 = an_set_b x d].
+Proof.
+rewrite /an_narrow; case: (_ =? 0)%ZZ; first by constructor 1.
+by case: (0 <? _)%ZZ; [constructor 2 | constructor 3].
+Qed.
+
+Lemma rwp_shape x d : af x <> None ->
+  (an_refine_with_point x d = x /\ ~~ (dyR (aa x) < dyR d < dyR (ab x))) \/
+  (dyR (aa x) < dyR d < dyR (ab x) /\
+   [\/ an_refine_with_point x d = an_point d, an_refine_with_point x d = an_set_a x d |
+       an_refine_with_point x d = an_set_b x d]).
+Proof.
+rewrite /an_refine_with_point; case E: (af x) => [l|//] _; rewrite contains_openP.
+case C: (_ < _ < _); last by left.
+by right; split=> //; exact: narrow_shape.
+Qed.
+
+(* where a proper number x ends up after refine_with_point lo, then refine_with_point hi (a <= lo < hi <= b) *)
+Definition zone x x1 (lo hi : R) : Prop :=
+  [\/ [/\ af x1 = None, dyR (aa x1) = dyR (ab x1) & dyR (aa x1) = lo \/ dyR (aa x1) = hi],
+      [/\ af x1 <> None, dyR (ab x1) <= lo & dyR (aa x) < lo],
+      [/\ af x1 <> None, dyR (aa x1) = lo & dyR (ab x1) = hi] |
+      [/\ af x1 <> None, hi <= dyR (aa x1) & hi < dyR (ab x)]].
+
+Lemma prep_zone x (lo hi : dyq) : af x <> None -> dyR (aa x) <= dyR lo -> dyR lo < dyR hi -> dyR hi <= dyR (ab x) ->
+  zone x (an_refine_with_point (an_refine_with_point x lo) hi) (dyR lo) (dyR hi).
+Proof.
+move=> nx alo lohi hib.
+have second x' : af x' <> None -> dyR (aa x') = dyR lo -> dyR (ab x') = dyR (ab x) ->
+    zone x (an_refine_with_point x' hi) (dyR lo) (dyR hi).
+  move=> nx' ea eb; case: (rwp_shape hi nx') => [[-> nc]|[/andP[c1 c2] [] ->]].
+  - constructor 3; split=> //; apply/eqP; rewrite eq_le eb hib andbT leNgt; apply/negP => lt.
+    by move: nc; rewrite ea eb lohi lt.
+  - by constructor 1; split=> //; right.
+  - by constructor 4; split=> //=; rewrite -eb.
+  - by constructor 3; split.
+case: (rwp_shape lo nx) => [[-> nc]|[/andP[c1 c2] [] ->]].
+- apply: second => //; apply/eqP; rewrite eq_le alo /= leNgt; apply/negP => lt.
+  by move: nc; rewrite lt /=; rewrite (lt_le_trans lohi hib).
+- by constructor 1; split=> //; left.
+- exact: second.
+- have nx' : af (an_set_b x lo) <> None by [].
+  case: (rwp_shape hi nx') => [[-> _]|[/andP[_ /=]]]; first by constructor 2; split.
+  by rewrite ltNge (ltW lohi).
+Qed.
+
+Lemma same_interval_intro x (y : anum) : af x <> None -> af y <> None ->
+  dyR (aa x) = dyR (aa y) -> dyR (ab x) = dyR (ab y) -> an_same_interval x y.
+Proof.
+move=> nx ny ea eb; rewrite /an_same_interval !is_pointE !dyq_eqP ea eb !eqxx !andbT.
+by apply/andP; split; apply/eqP.
+Qed.
+
+Lemma zones_sep x (y : anum) x1 y1 (lo hi : R) : zone x x1 lo hi -> zone y y1 lo hi -> lo < hi ->
+  ~ (dyR (aa x) < lo /\ dyR (aa y) < lo) -> ~ (hi < dyR (ab x) /\ hi < dyR (ab y)) ->
+  ~~ an_same_interval x1 y1 -> sep x1 y1.
+Proof.
+move=> zx zy lohi nlo nhi ns; rewrite /sep.
+case: zx => [[px ex tx]|[nx1 bx ax]|[nx1 ax bx]|[nx1 ax bx]]; case: zy => [[py ey ty]|[ny1 by_ ay]|[ny1 ay by_]|[ny1 ay by_]].
+- by rewrite -ex -ey; case: (leP (dyR (aa x1)) (dyR (aa y1))) => [|/ltW]; [left | right].
+- by right; apply: le_trans by_ _; case: tx => ->; rewrite ?lexx // ltW.
+- by case: tx => e; [left; rewrite -ex e ay | right; rewrite by_ e].
+- by left; rewrite -ex; apply: le_trans _ ay; case: tx => ->; rewrite ?lexx // ltW.
+- by left; apply: le_trans bx _; case: ty => ->; rewrite ?lexx // ltW.
+- by case: nlo.
+- by left; rewrite ay.
+- by left; apply: le_trans bx _; apply: le_trans (ltW lohi) ay.
+- by case: ty => e; [right; rewrite -ey e ax | left; rewrite bx e].
+- by right; rewrite ax.
+- by move: ns; rewrite (same_interval_intro nx1 ny1) // ?ax ?ay ?bx ?by_.
+- by left; rewrite bx.
+- by right; rewrite -ey; apply: le_trans _ ax; case: ty => ->; rewrite ?lexx // ltW.
+- by right; apply: le_trans by_ _; apply: le_trans (ltW lohi) ax.
+- by right; rewrite by_.
+- by case: nhi.
+Qed.
+
+Lemma WF_point x : WF x -> af x = None -> aa x = ab x.
+Proof. by rewrite /WF => + E; rewrite E => -[]. Qed.
+
+Lemma rwp_point x d : af x = None -> an_refine_with_point x d = x.
+Proof. by rewrite /an_refine_with_point => ->. Qed.
+
+Lemma prepare_sep x (y : anum) : WF x -> WF y ->
+  ~~ an_same_interval (an_cmp_prepare x y).1 (an_cmp_prepare x y).2 ->
+  sep (an_cmp_prepare x y).1 (an_cmp_prepare x y).2.
+Proof.
+move=> wfx wfy; rewrite /an_cmp_prepare /an_disjoint /an_intersection /an_contains !is_pointE.
+case Ex: (af x) => [lx|] /=; case Ey: (af y) => [ly|] /=.
+- (* two proper numbers *)
+  have ltx := WF_lt wfx Ex; have lty := WF_lt wfy Ey.
+  rewrite !dyq_leP; case D: (_ || _) => /=; first by move=> _; case/orP: D => D; [left | right].
+  move: D => /norP[]; rewrite -!ltNge => ayb axb.
+  have nx : af x <> None by rewrite Ex.
+  have ny : af y <> None by rewrite Ey.
+  have lohi : dyR (dyq_max (aa x) (aa y)) < dyR (dyq_min (ab x) (ab y)).
+    by rewrite dyq_maxP dyq_minP lt_maxl !lt_minr ltx ayb axb lty.
+  move=> ns.
+  have zx : zone x (an_refine_with_point (an_refine_with_point x (dyq_max (aa x) (aa y))) (dyq_min (ab x) (ab y)))
+                 (dyR (dyq_max (aa x) (aa y))) (dyR (dyq_min (ab x) (ab y))).
+    by apply: prep_zone => //; rewrite ?dyq_maxP ?dyq_minP ?le_maxr ?le_minl ?lexx.
+  have zy : zone y (an_refine_with_point (an_refine_with_point y (dyq_max (aa x) (aa y))) (dyq_min (ab x) (ab y)))
+                 (dyR (dyq_max (aa x) (aa y))) (dyR (dyq_min (ab x) (ab y))).
+    by apply: prep_zone => //; rewrite ?dyq_maxP ?dyq_minP ?le_maxr ?le_minl ?lexx ?orbT.
+  apply: (zones_sep zx zy lohi) => //.
+  + rewrite dyq_maxP !lt_maxr !ltxx /= orbF => -[h1 h2].
+    by move: (lt_asym (dyR (aa x)) (dyR (aa y))); rewrite h1 h2.
+  + rewrite dyq_minP !lt_minl !ltxx /= orbF => -[h1 h2].
+    by move: (lt_asym (dyR (ab x)) (dyR (ab y))); rewrite h1 h2.
+- (* x proper, y a point *)
+  have eb := WF_point wfy Ey; rewrite contains_openP.
+  case C: (_ < _ < _) => /=.
+    have nx : af x <> None by rewrite Ex.
+    move=> _; rewrite (rwp_point _ Ey).
+    case: (rwp_shape (aa y) nx) => [[_]|[_ [] ->]]; rewrite ?C // /sep /= -?eb; by [left | right].
+  move=> _; rewrite /sep -eb; move: C => /negbT; rewrite negb_and -!leNgt => /orP[h|h]; by [right | left].
+- (* x a point, y proper *)
+  have eb := WF_point wfx Ex; rewrite contains_openP.
+  case C: (_ < _ < _) => /=.
+    have ny : af y <> None by rewrite Ey.
+    move=> _; rewrite (rwp_point _ Ex).
+    case: (rwp_shape (aa x) ny) => [[_]|[_ [] ->]]; rewrite ?C // /sep /= -?eb; by [left | right].
+  move=> _; rewrite /sep -eb; move: C => /negbT; rewrite negb_and -!leNgt => /orP[h|h]; by [left | right].
+- (* two points *)
+  have ebx := WF_point wfx Ex; have eby := WF_point wfy Ey.
+  have sp : sep x y by rewrite /sep -ebx -eby; case: (leP (dyR (aa x)) (dyR (aa y))) => [|/ltW]; [left | right].
+  by case: ifP => _ _ //; rewrite (rwp_point _ Ex) (rwp_point _ Ey).
+Qed.
+
+Lemma refine_dir_shape x l : af x = Some l ->
+  let m := dyq_mid (aa x) (ab x) in
+  [\/ an_refine_dir x = (an_point m, 0%ZZ), an_refine_dir x = (an_set_a x m, 1%ZZ) |
+      an_refine_dir x = (an_set_b x m, (-1)%ZZ)].
+Proof.
+move=> E /=; rewrite /an_refine_dir E /an_narrow; case: (_ =? 0)%ZZ; first by constructor 1.
+by case: (0 <? _)%ZZ; [constructor 2 | constructor 3].
+Qed.
+
+Lemma bisect_sep fuel x (y : anum) x' y' : an_same_interval x y ->
+  an_bisect_away fuel x y = Some (x', y') -> sep x' y'.
+Proof.
+elim: fuel x y => [|fuel IH] x y //= S.
+have [nx ny ea eb] := same_intervalP S.
+case Ex: (af x) nx => [lx|//] _; case Ey: (af y) ny => [ly|//] _.
+have em : dyR (dyq_mid (aa x) (ab x)) = dyR (dyq_mid (aa y) (ab y)) by rewrite !dyq_midP ea eb.
+have nx' d : af (an_set_a x d) <> None /\ af (an_set_b x d) <> None by rewrite /= Ex.
+have ny' d : af (an_set_a y d) <> None /\ af (an_set_b y d) <> None by rewrite /= Ey.
+case: (refine_dir_shape Ex) => ->; case: (refine_dir_shape Ey) => -> /=.
+- by move=> [<- <-]; left; rewrite /= em.
+- by move=> [<- <-]; left; rewrite /= em.
+- by move=> [<- <-]; right; rewrite /= em.
+- by move=> [<- <-]; right; rewrite /= em.
+- by apply: IH; apply: same_interval_intro => //=; [case: (nx' (dyq_mid (aa x) (ab x))) | case: (ny' (dyq_mid (aa y) (ab y)))].
+- by move=> [<- <-]; right; rewrite /= em.
+- by move=> [<- <-]; left; rewrite /= em.
+- by move=> [<- <-]; left; rewrite /= em.
+- by apply: IH; apply: same_interval_intro => //=; [case: (nx' (dyq_mid (aa x) (ab x))) | case: (ny' (dyq_mid (aa y) (ab y)))].
+Qed.
+
+Theorem cmp_ok fuel x (y : anum) g x' y' c : WF x -> WF y -> gcd_ok g x y ->
+  an_cmp fuel x y g = Some ((x', y'), c) -> ZR c = sgr (den x - den y).
+Proof.
+move=> wfx wfy gok E.
+have [[wx' dx _ _] [wy' dy _ _]] := cmp_keeps wfx wfy gok E.
+move: E; rewrite /an_cmp.
+have [] := prepare_ok wfx wfy; have := prepare_sep wfx wfy.
+case: (an_cmp_prepare x y) => [x1 y1] /= psep nx ny.
+have [wx1 dx1 _] := nx; have [wy1 dy1 _] := ny.
+case S: (an_same_interval x1 y1); last first.
+  by move=> [_ _ <-]; rewrite (cmp_ends_ok wx1 wy1) ?dx1 ?dy1 //; apply: psep; rewrite S.
+have [nnx nny ea eb] := same_intervalP S.
+case N: (_ <? 0)%ZZ.
+  move=> [_ _ <-]; rewrite ZR_0.
+  case Ex: (af x1) nnx => [lx|//] _; case Ey: (af y1) nny => [ly|//] _.
+  have [dvx dvy] := gok _ _ (Narrows_af nx Ex) (Narrows_af ny Ey).
+  have sg := ZR_mul_lt0 (psgn_dyP g (aa x1)) (psgn_dyP g (ab x1)) N.
+  have Egx := reduce_roots (WF_roots wx1 Ex) (fun t => divides_root dvx (t:=t)) sg.
+  have Egy : roots (pR g) (dyR (aa x1)) (dyR (ab x1)) = [:: den y1].
+    by rewrite ea eb; apply: (reduce_roots (WF_roots wy1 Ey) (fun t => divides_root dvy (t:=t))); rewrite -ea -eb.
+  have : [:: den x1] = [:: den y1] by rewrite -Egx -Egy.
+  by rewrite -dx1 -dy1 => -[->]; rewrite subrr sgr0.
+case B: (an_bisect_away fuel x1 y1) => [[x2 y2]|//] [_ _ <-].
+have [n1 n2] := bisect_ok wx1 wy1 B.
+have [wx2 dx2 _] := n1; have [wy2 dy2 _] := n2.
+by rewrite (cmp_ends_ok wx2 wy2) ?dx2 ?dy2 ?dx1 ?dy1 //; exact: bisect_sep S B.
+Qed.
+
 (* ---------------------------------------------------------------- the pool *)
 Lemma nth_set_same (l : list (option anum)) i v : (i < List.length l)%N -> List.nth i (Refine.set_nth l i v) None = v.
 Proof. by elim: l i => [|h t IH] [|i] //=; exact: IH. Qed.
@@ -937,6 +1185,46 @@ move=> inv sq nc; apply: (@obs_stable_gen (fun o => ~~ is_cmp o)) => //.
 by rewrite (same_query_cmp sq).
 Qed.
 
+Theorem step_obs fuel s o s' (ob : obs) : Inv s -> op_ok s o ->
+  step fuel s o = Some (s', ob) -> obs_spec (dens s) o ob.
+Proof.
+move=> inv ok; case C: (is_cmp o); last by apply: step_obs_nocmp => //; rewrite C.
+have [wfs _] := inv; case: o ok C => //= i j g gok _.
+case: eq_natP => [//|ne]; case Gi: (get s i) => [x|//]; case Gj: (get s j) => [y|//].
+case E: (an_cmp fuel x y g) => [[[x' y'] c]|//] [_ <-].
+exists (den x), (den y); split; rewrite /dens ?Gi ?Gj //.
+exact: cmp_ok (wfs _ _ Gi) (wfs _ _ Gj) (gok _ _ Gi Gj) E.
+Qed.
+
+Theorem obs_stable fuel s o o' mid s1 (ob1 : obs) s2 (obl : list obs) s3 (ob2 : obs) :
+  Inv s -> same_query o o' ->
+  op_ok s o -> step fuel s o = Some (s1, ob1) ->
+  hist_ok fuel s1 mid -> run fuel s1 mid = Some (s2, obl) ->
+  op_ok s2 o' -> step fuel s2 o' = Some (s3, ob2) ->
+  (forall k, reads o k -> ~~ assigned_in mid k) ->
+  ob1 = ob2.
+Proof.
+move=> inv sq; apply: (@obs_stable_gen (fun _ => true)) => //.
+by move=> f0 s0 o0 s0' ob0 i0 k0 _ S0; exact: (step_obs i0 k0 S0).
+Qed.
+
+(* wrappers in the exact form of Properties_C09.v *)
+Lemma refine_keeps x : WF x -> WF (an_refine x) /\ den (an_refine x) = den x.
+Proof. by move=> wf; have [? ? _] := refine_ok wf. Qed.
+Lemma refine_with_point_keeps x d : WF x ->
+  WF (an_refine_with_point x d) /\ den (an_refine_with_point x d) = den x.
+Proof. by move=> wf; have [? ? _] := refine_with_point_ok d wf. Qed.
+Lemma cmp_rational_ok fuel x (q : Z * Z) x' c : WF x -> (0 < q.2)%ZZ -> an_cmp_q fuel x q = Some (x', c) ->
+  [/\ WF x', den x' = den x & ZR c = sgr (den x - qR q)].
+Proof. by move=> wf q0 E; have [[? ? _] ?] := cmp_q_ok wf q0 E. Qed.
+Lemma cmp_two_ok fuel x (y : anum) g x' y' c : WF x -> WF y -> gcd_ok g x y ->
+  an_cmp fuel x y g = Some ((x', y'), c) ->
+  [/\ WF x', den x' = den x, WF y', den y' = den y & ZR c = sgr (den x - den y)].
+Proof.
+move=> wx wy gk E; have [[? ? _ _] [? ? _ _]] := cmp_keeps wx wy gk E.
+by split=> //; exact: cmp_ok E.
+Qed.
+
 (* ---------------------------------------------------------------- copies stay equal to the original *)
 Theorem copy_stays_equal fuel s i j s1 (ob : obs) ops s2 (obl : list obs) :
   Inv s -> step fuel s (OCopy i j) = Some (s1, ob) ->
@@ -1028,4 +1316,123 @@ split=> //; first exact: wfs' gs.
   by case E1: (af x1) => [l1|] //=; rewrite E1.
 Qed.
 
+(* ---------------------------------------------------------------- concrete numbers: square roots (for the examples) *)
+Lemma pR_nil u : (pR [::]).[u] = 0.
+Proof. by rewrite /pR /= horner0. Qed.
+
+Lemma pR_sqr (c : Z) (u : R) : (pR [:: (- c)%ZZ; 0%ZZ; 1%ZZ]).[u] = u ^+ 2 - ZR c.
+Proof. by rewrite !pR_cons pR_nil ZR_opp ZR_0 ZR_1 mul0r add0r addr0 mul1r expr2. Qed.
+
+Lemma noint_check d e : dyq_le e ((dyq_floor d + 1)%ZZ, N0) -> noint (dyR d) (dyR e).
+Proof.
+rewrite dyq_leP {2}/dyR /= /tw expr0 divr1 => le z; apply/negP => /andP[h1 h2].
+have /andP[f1 f2] := dyq_floorP d.
+have : ZR (dyq_floor d) < ZR z by exact: le_lt_trans f1 h1.
+have : ZR z < ZR (dyq_floor d + 1)%ZZ by exact: lt_le_trans h2 le.
+by rewrite !ZR_lt => /Z.ltb_lt a1 /Z.ltb_lt a2; lia.
+Qed.
+
+Lemma WF_sqrt (c : Z) x : af x = Some [:: (- c)%ZZ; 0%ZZ; 1%ZZ] -> (0 <=? (aa x).1)%ZZ ->
+  asa x = psgn_dy [:: (- c)%ZZ; 0%ZZ; 1%ZZ] (aa x) -> asb x = psgn_dy [:: (- c)%ZZ; 0%ZZ; 1%ZZ] (ab x) ->
+  (asa x * asb x <? 0)%ZZ -> dyq_lt (aa x) (ab x) ->
+  dyq_le (ab x) ((dyq_floor (aa x) + 1)%ZZ, N0) -> WF x.
+Proof.
+set l := [:: _; _; _] => E a0 sa sb neg lt ni; rewrite /WF E.
+have sg := ZR_mul_lt0 (psgn_dyP l (aa x)) (psgn_dyP l (ab x)); rewrite -sa -sb in sg; have {sg} sg := sg neg.
+have leab : dyR (aa x) <= dyR (ab x) by apply: ltW; rewrite -dyq_ltP.
+have a0R : 0 <= dyR (aa x) by rewrite /dyR divr_ge0 ?ZR_ge0 // ltW // tw_gt0.
+have [r rab rr] := ivt_sign leab sg.
+have p0 : pR l != 0.
+  by apply/eqP => e; move: sg; rewrite e !horner0 sgr0 mul0r => /eqP; rewrite eq_sym oppr_eq0 oner_eq0.
+split=> //; [|by rewrite sa psgn_dyP | by rewrite sb psgn_dyP | exact: noint_check].
+exists r; apply: roots1P => // t tab /rootP; move/rootP: rr; rewrite !pR_sqr => /eqP; rewrite subr_eq0 => /eqP <- /eqP.
+rewrite subr_eq0 eqr_expn2 //; first by move=> /eqP.
+  by move: tab; rewrite in_itv /= => /andP[h _]; exact: ltW (le_lt_trans a0R h).
+by move: rab; rewrite in_itv /= => /andP[h _]; exact: ltW (le_lt_trans a0R h).
+Qed.
+
+Lemma divides_one l : divides_poly [:: 1%ZZ] l.
+Proof.
+exists 1%ZZ, l; split=> //; rewrite Poly_pscale Poly_pmul /= cons_poly_def mul0r add0r.
+by rewrite scale1r mulr1.
+Qed.
+Lemma divides_refl l : divides_poly l l.
+Proof.
+exists 1%ZZ, [:: 1%ZZ]; split=> //; rewrite Poly_pscale Poly_pmul /= cons_poly_def mul0r add0r.
+by rewrite scale1r mul1r.
+Qed.
+Lemma gcd_ok_one x (y : anum) : gcd_ok [:: 1%ZZ] x y.
+Proof. by move=> lx ly _ _; split; exact: divides_one. Qed.
+Lemma gcd_ok_same l x (y : anum) : af x = Some l -> af y = Some l -> gcd_ok l x y.
+Proof. by move=> ex ey lx ly; rewrite ex ey => -[<-] [<-]; split; exact: divides_refl. Qed.
+
 End Den.
+
+(* ---------------------------------------------------------------- a computable sufficient condition for hist_ok *)
+Definition op_okb (s : state) (o : op) : bool :=
+  match o with
+  | OCmp i j g =>
+    match get s i, get s j with
+    | Some x, Some y => (g == [:: 1%ZZ]) || ((af x == Some g) && (af y == Some g))
+    | _, _ => true
+    end
+  | OCmpQ _ q => (0 <? q.2)%ZZ
+  | _ => true
+  end.
+Fixpoint hist_okb (fuel : nat) (s : state) (ops : list op) : bool :=
+  match ops with
+  | nil => true
+  | o :: rest => op_okb s o && match step fuel s o with Some (s', _) => hist_okb fuel s' rest | None => true end
+  end.
+
+Lemma op_okbP s o : op_okb s o -> op_ok s o.
+Proof.
+case: o => //= [i q /Z.ltb_lt //|i j g].
+move=> h x y Gi Gj; move: h; rewrite Gi Gj => /orP[/eqP ->|/andP[/eqP ex /eqP ey]].
+  exact: gcd_ok_one.
+exact: gcd_ok_same.
+Qed.
+
+Lemma hist_okbP fuel s ops : hist_okb fuel s ops -> hist_ok fuel s ops.
+Proof.
+elim: ops s => [|o ops IH] s //= /andP[ok rest]; split; first exact: op_okbP.
+by move=> s' ob E; move: rest; rewrite E; exact: IH.
+Qed.
+
+(* ---------------------------------------------------------------- a concrete history (non-vacuity) *)
+Section Example.
+Variable R : rcfType.
+Local Open Scope Z_scope.
+
+Definition ex_sqrt2 : anum := mkAnum (Some [:: -2; 0; 1]) (1, N0) (2, N0) (-1) 1.
+Definition ex_sqrt3 : anum := mkAnum (Some [:: -3; 0; 1]) (1, N0) (2, N0) (-1) 1.
+Definition ex_state : state := mkState [:: Some ex_sqrt2; Some ex_sqrt3; None] [::].
+(* compare (the intervals are equal: bisect away), refine, copy, query the copy, remember / refine / restore,
+   compare the copy with the original (equal: both are reduced to the gcd), sign, floor, destroy the copy *)
+Definition ex_history : list op :=
+  [:: OCmp 0 1 [:: 1]; ORefine 0; OCopy 0 2; OCmpQ 2 (3, 2); ORemember 1; ORefine 1; ORefine 1; ORestore 1;
+      OCmp 2 0 [:: -2; 0; 1]; OSgn 1; OFloor 0; OCmpQ 1 (7, 4); ODestroy 2].
+
+Lemma ex_WF2 : WF R ex_sqrt2.
+Proof. by apply: (@WF_sqrt R 2). Qed.
+Lemma ex_WF3 : WF R ex_sqrt3.
+Proof. by apply: (@WF_sqrt R 3). Qed.
+
+Lemma ex_Inv : Inv R ex_state.
+Proof.
+split; last by move=> i A B x [].
+move=> [|[|[|i]]] x; rewrite /get /=.
+- by move=> [<-]; exact: ex_WF2.
+- by move=> [<-]; exact: ex_WF3.
+- by [].
+- by case: i.
+Qed.
+
+Lemma ex_hist_ok : hist_ok 50 ex_state ex_history.
+Proof. by apply: hist_okbP; vm_compute. Qed.
+
+Definition ex_obs : list obs :=
+  [:: OInt (-1); ONone; ONone; OInt (-1); ONone; ONone; ONone; ONone; OInt 0; OInt 1; OInt 1; OInt (-1); ONone].
+Lemma ex_run : exists s', run 50 ex_state ex_history = Some (s', ex_obs).
+Proof. by eexists; vm_compute; reflexivity. Qed.
+End Example.
